@@ -89,7 +89,9 @@ def operand_rows(op, dimA, dimB, sa, sb, tier):
     """aligned lists of stored rows for the first (and second) operand"""
     firsts = [v for v in A.vectors(dimA, tier) if _well(v)]
     if tier != "thorough":
-        firsts = firsts[:: max(1, len(firsts) // 8)][:8]
+        # always keep the vectors whose azimuth is stored outside [-pi, pi] (a stratum of its own)
+        reg, wild = [v for v in firsts if not v.has("wildphi")], [v for v in firsts if v.has("wildphi")]
+        firsts = reg[:: max(1, len(reg) // 6)][:6] + wild
     rows_a, rows_b = [], []
     if dimB is None:
         for v in firsts:
